@@ -35,57 +35,64 @@ def sched_catalogue(prop, tier, drv=0, precs_extra=True, light=False):
     """Engine S job catalogue K1..K13 (DESIGN.md 2.1) for one property"""
     j = []
     q = tier == 'quick'
+
+    def S(shape, P, bound, **cfg):
+        # the conformance replay costs about 10x per execution: the large jobs (>= 3 threads at bound >= 2, bound 3) of C03/C04 run without it;
+        # the binding is validated on all other jobs (3.7 x 10^5 executions in the quick tier alone)
+        if prop in ('C03', 'C04') and ((P >= 3 and bound >= 2) or bound >= 3):
+            cfg['model'] = 0
+        return sjob(prop, shape, P, bound, **cfg)
     # the full bounds are explored by the C03/C04 checks; the other properties re-run the catalogue with their own oracle, at bound 1 in the quick tier
     b2 = 1 if (light and q) else 2
     # K1 chains: pure linear pipeline
     for n in (3, 4, 5):
-        j.append(sjob(prop, 'chain%d' % n, 2, b2, drv=drv))
-    j.append(sjob(prop, 'chain4', 3, 1 if q else 2, drv=drv))
-    j.append(sjob(prop, 'uchain5', 2, b2, drv=drv, vk=1))
+        j.append(S('chain%d' % n, 2, b2, drv=drv))
+    j.append(S('chain4', 3, 1 if q else 2, drv=drv))
+    j.append(S('uchain5', 2, b2, drv=drv, vk=1))
     # K2 two leaves + root, wide forks
-    j.append(sjob(prop, 'fork3', 2, b2, drv=drv)); j.append(sjob(prop, 'fork3', 3, 1 if q else 2, drv=drv))      # fork3 P=3 bound 2: > 10^5 executions, thorough only
-    j.append(sjob(prop, 'sfork4', 2, b2, drv=drv)); j.append(sjob(prop, 'fork5', 3, 1 if q else 2, drv=drv))
+    j.append(S('fork3', 2, b2, drv=drv)); j.append(S('fork3', 3, 1 if q else 2, drv=drv))      # fork3 P=3 bound 2: > 10^5 executions, thorough only
+    j.append(S('sfork4', 2, b2, drv=drv)); j.append(S('fork5', 3, 1 if q else 2, drv=drv))
     # K3 binary tree
-    j.append(sjob(prop, 'tree7', 2, 1 if q else 2, drv=drv)); j.append(sjob(prop, 'utree7', 2, b2 if not q else 1, drv=drv, vk=1))
-    j.append(sjob(prop, 'tree7', 3, 1, drv=drv))
+    j.append(S('tree7', 2, 1 if q else 2, drv=drv)); j.append(S('utree7', 2, b2 if not q else 1, drv=drv, vk=1))
+    j.append(S('tree7', 3, 1, drv=drv))
     # K4 supernode spanning two panels (panel width 2 needs panel_size 4 on tiny n)
-    j.append(sjob(prop, 'lower5', 2, b2, drv=drv, w=4, ms=4)); j.append(sjob(prop, 'lower6', 2, 1 if q else 2, drv=drv, w=4, ms=6, vk=1))
-    j.append(sjob(prop, 'dense5', 2, 1 if q else 2, drv=drv, w=6, ms=5))
+    j.append(S('lower5', 2, b2, drv=drv, w=4, ms=4)); j.append(S('lower6', 2, 1 if q else 2, drv=drv, w=4, ms=6, vk=1))
+    j.append(S('dense5', 2, 1 if q else 2, drv=drv, w=6, ms=5))
     # K4b (added after seeded change C03/2 was missed): width-2 panels above two finished leaves, a late column reaching a busy column through
     # the L-structure of a finished leaf
     K4B = 'pat:6:100001011000101100001110000111001011'
-    j.append(sjob(prop, K4B, 2, b2, drv=drv, w=4, ms=4)); j.append(sjob(prop, K4B, 2, b2, drv=drv, w=4, ms=4, vk=1)); j.append(sjob(prop, K4B, 3, 1, drv=drv, w=4, ms=1))
+    j.append(S(K4B, 2, b2, drv=drv, w=4, ms=4)); j.append(S(K4B, 2, b2, drv=drv, w=4, ms=4, vk=1)); j.append(S(K4B, 3, 1, drv=drv, w=4, ms=1))
     # K5 relaxed supernodes that are not etree paths
-    j.append(sjob(prop, 'relax6', 2, b2, drv=drv, relax=3)); j.append(sjob(prop, 'relax6', 3, 1, drv=drv, relax=3)); j.append(sjob(prop, 'tree7', 2, 1, drv=drv, relax=3))
+    j.append(S('relax6', 2, b2, drv=drv, relax=3)); j.append(S('relax6', 3, 1, drv=drv, relax=3)); j.append(S('tree7', 2, 1, drv=drv, relax=3))
     # K6 off-diagonal pivots (generic values, u=1) vs diagonal (vk=1); K7 singleton supernodes, double pruning
-    j.append(sjob(prop, 'dense4', 2, b2, drv=drv, ms=1)); j.append(sjob(prop, 'dense5', 2, 1 if q else 2, drv=drv, ms=1)); j.append(sjob(prop, 'dense4', 3, 1 if q else 2, drv=drv, ms=1))
-    j.append(sjob(prop, 'dense4', 2, b2, drv=drv, ms=4, vk=1, u=0.1))
+    j.append(S('dense4', 2, b2, drv=drv, ms=1)); j.append(S('dense5', 2, 1 if q else 2, drv=drv, ms=1)); j.append(S('dense4', 3, 1 if q else 2, drv=drv, ms=1))
+    j.append(S('dense4', 2, b2, drv=drv, ms=4, vk=1, u=0.1))
     # K7b double pruning (found by the first end-to-end thorough run, repaired in /repo): columns 2 and 3 of a dense matrix with off-diagonal pivots both prune supernode 1
     if not (light and q):
-        j.append(sjob(prop, 'dense5', 2, 2, drv=drv, ms=1, vk=8))
+        j.append(S('dense5', 2, 2, drv=drv, ms=1, vk=8))
     # K8 independent trees
-    j.append(sjob(prop, 'two6', 2, b2 if not q else 1, drv=drv)); j.append(sjob(prop, 'two6', 3, 1, drv=drv)); j.append(sjob(prop, 'two8', 3, 1, drv=drv))
+    j.append(S('two6', 2, b2 if not q else 1, drv=drv)); j.append(S('two6', 3, 1, drv=drv)); j.append(S('two8', 3, 1, drv=drv))
     # K9 zero pivot in the middle (explicit zeros: structure present)
-    j.append(sjob(prop, 'chain4', 2, b2, drv=drv, vk=4)); j.append(sjob(prop, 'tree7', 2, 1, drv=drv, vk=4)); j.append(sjob(prop, 'dense4', 2, 1, drv=drv, vk=4, ms=1))
-    j.append(sjob(prop, 'relax6', 2, 1, drv=drv, vk=4, relax=3)); j.append(sjob(prop, 'tree7', 2, 1, drv=drv, vk=4, relax=3)); j.append(sjob(prop, 'two6', 2, 1, drv=drv, vk=4, relax=2))
-    j.append(sjob(prop, 'sforest:12545r', 2, 1, drv=drv, vk=6, relax=2)); j.append(sjob(prop, 'tree7', 2, 1, drv=drv, vk=6))     # K15 two zero-pivot columns
+    j.append(S('chain4', 2, b2, drv=drv, vk=4)); j.append(S('tree7', 2, 1, drv=drv, vk=4)); j.append(S('dense4', 2, 1, drv=drv, vk=4, ms=1))
+    j.append(S('relax6', 2, 1, drv=drv, vk=4, relax=3)); j.append(S('tree7', 2, 1, drv=drv, vk=4, relax=3)); j.append(S('two6', 2, 1, drv=drv, vk=4, relax=2))
+    j.append(S('sforest:12545r', 2, 1, drv=drv, vk=6, relax=2)); j.append(S('tree7', 2, 1, drv=drv, vk=6))     # K15 two zero-pivot columns
     # K12 user-supplied workspace (aligned and misaligned sizes)
-    j.append(sjob(prop, 'fork3', 2, b2, drv=drv, lwork=100000)); j.append(sjob(prop, 'tree7', 3, 1, drv=drv, lwork=200004)); j.append(sjob(prop, 'chain4', 2, 1, drv=drv, lwork=100004))
+    j.append(S('fork3', 2, b2, drv=drv, lwork=100000)); j.append(S('tree7', 3, 1, drv=drv, lwork=200004)); j.append(S('chain4', 2, 1, drv=drv, lwork=100004))
     # K14 (added after seeded change C05/2 was missed): the U estimate sp_ienv(7) runs out while two threads gather U columns of independent
     # subtrees; every execution must end in the library's abort path (or succeed), never in an out-of-bounds write
-    j.append(sjob(prop, 'two6', 2, 1, drv=drv, f7=2)); j.append(sjob(prop, 'two6', 2, 1, drv=drv, f7=1)); j.append(sjob(prop, 'tree7', 2, 1, drv=drv, f7=5))
+    j.append(S('two6', 2, 1, drv=drv, f7=2)); j.append(S('two6', 2, 1, drv=drv, f7=1)); j.append(S('tree7', 2, 1, drv=drv, f7=5))
     if not q:
-        j.append(sjob(prop, 'two6', 2, 2, drv=drv, f7=2)); j.append(sjob(prop, 'two6', 3, 1, drv=drv, f7=2))
-        for f7 in (3, 4, 6, 7): j.append(sjob(prop, 'tree7', 2, 1, drv=drv, f7=f7))
-        j.append(sjob(prop, 'two8', 2, 1, drv=drv, f7=3)); j.append(sjob(prop, 'two8', 2, 1, drv=drv, f8=12))
+        j.append(S('two6', 2, 2, drv=drv, f7=2)); j.append(S('two6', 3, 1, drv=drv, f7=2))
+        for f7 in (3, 4, 6, 7): j.append(S('tree7', 2, 1, drv=drv, f7=f7))
+        j.append(S('two8', 2, 1, drv=drv, f7=3)); j.append(S('two8', 2, 1, drv=drv, f8=12))
     # K10 more threads than columns
-    j.append(sjob(prop, 'dense1', 3, 2, drv=drv)); j.append(sjob(prop, 'dense2', 3, 1 if q else 2, drv=drv)); j.append(sjob(prop, 'chain3', 4, 1, drv=drv))
+    j.append(S('dense1', 3, 2, drv=drv)); j.append(S('dense2', 3, 1 if q else 2, drv=drv)); j.append(S('chain3', 4, 1, drv=drv))
     # dynamic supernode storage
-    j.append(sjob(prop, 'fork3', 2, b2, drv=drv, dyn=1)); j.append(sjob(prop, 'tree7', 2, 1, drv=drv, dyn=1)); j.append(sjob(prop, 'lower5', 2, 1 if q else 2, drv=drv, w=4, ms=4, dyn=1))
+    j.append(S('fork3', 2, b2, drv=drv, dyn=1)); j.append(S('tree7', 2, 1, drv=drv, dyn=1)); j.append(S('lower5', 2, 1 if q else 2, drv=drv, w=4, ms=4, dyn=1))
     # other precisions: K1-K4 + K8 (the twins are separate translation units)
     for p in 'scz':
-        j.append(sjob(prop, 'chain4', 2, 1 if q else 2, prec=p, drv=drv)); j.append(sjob(prop, 'fork3', 2, b2, prec=p, drv=drv))
-        j.append(sjob(prop, 'tree7', 2, 1, prec=p, drv=drv)); j.append(sjob(prop, 'lower5', 2, 1 if q else 2, prec=p, drv=drv, w=4, ms=4)); j.append(sjob(prop, 'two6', 3, 1, prec=p, drv=drv))
+        j.append(S('chain4', 2, 1 if q else 2, prec=p, drv=drv)); j.append(S('fork3', 2, b2, prec=p, drv=drv))
+        j.append(S('tree7', 2, 1, prec=p, drv=drv)); j.append(S('lower5', 2, 1 if q else 2, prec=p, drv=drv, w=4, ms=4)); j.append(S('two6', 3, 1, prec=p, drv=drv))
     if not q:
         # K13: all full-diagonal 3x3 patterns, P=2, bound 1
         for bits in range(64):
@@ -93,11 +100,11 @@ def sched_catalogue(prop, tier, drv=0, precs_extra=True, light=False):
             for d in (0, 4, 8): pat[d] = '1'
             for k in range(6):
                 if bits >> k & 1: pat[off[k]] = '1'
-            j.append(sjob(prop, 'pat:3:' + ''.join(pat), 2, 1, drv=drv))
-        j.append(sjob(prop, 'dense4', 2, 3, drv=drv, ms=1)); j.append(sjob(prop, 'fork3', 2, 3, drv=drv)); j.append(sjob(prop, 'chain4', 2, 3, drv=drv))
+            j.append(S('pat:3:' + ''.join(pat), 2, 1, drv=drv))
+        j.append(S('dense4', 2, 3, drv=drv, ms=1)); j.append(S('fork3', 2, 3, drv=drv)); j.append(S('chain4', 2, 3, drv=drv))
         # value set 8 (off-diagonal pivots in two early columns only) at bound 2 on more shapes: the double-pruning defect needed exactly such values
-        j.append(sjob(prop, 'chain5', 2, 2, drv=drv, vk=8)); j.append(sjob(prop, 'lower5', 2, 2, drv=drv, w=4, ms=4, vk=8)); j.append(sjob(prop, 'dense4', 3, 2, drv=drv, ms=1, vk=8)); j.append(sjob(prop, 'relax6', 2, 2, drv=drv, relax=3, vk=8))
-        j.append(sjob(prop, 'fork4', 3, 2, drv=drv))       # tree7 P=3 bound 2 was measured at > 1.1 x 10^6 executions (> 20 min, unfinished): not registered
+        j.append(S('chain5', 2, 2, drv=drv, vk=8)); j.append(S('lower5', 2, 2, drv=drv, w=4, ms=4, vk=8)); j.append(S('dense4', 3, 2, drv=drv, ms=1, vk=8)); j.append(S('relax6', 2, 2, drv=drv, relax=3, vk=8))
+        j.append(S('fork4', 3, 2, drv=drv))       # tree7 P=3 bound 2 was measured at > 1.1 x 10^6 executions (> 20 min, unfinished): not registered
     return j
 
 
